@@ -3,10 +3,10 @@
 package main
 
 import (
-	"strings"
 	"bufio"
 	"fmt"
 	"strconv"
+	"strings"
 	"time"
 
 	"github.com/fiorix/go-diameter/diam"
